@@ -155,6 +155,11 @@ def run(R):
         datasets.append((ds, L.order_ops(ds, rng, ["sorted", "reversed", "random"][i % 3]),
                          ["in memory", "on disk", None][i % 3]))
         R.count("order:huge-grid")
+    # writers in a child interpreter: default strategy, python -O, exit without an explicit close
+    for i, flags in enumerate(["child:noclose", "child:O:noclose", "child:O", "child:noclose:mem"]):
+        ds = L.gen_gappy_dataset(rng, 7000 + i)
+        datasets.append((ds, L.order_ops(ds, rng, "reversed"), flags))
+        R.count("order:child-writer")
     # minishards with more than 64 KiB of data (block-wise copying of the write buffers)
     for i in range(3 if quick else 9):
         ds = L.gen_bigpayload_dataset(rng, i)
@@ -185,6 +190,10 @@ def run(R):
             R.disagree("run_datasets: the implementation left the harness in an unexpected state",
                        {"datasets": [a, a + chunk]}, traceback.format_exc()[-1500:], "no exception")
     try:
+        L.run_large_cases(R, "C04")
+    except L.ImplAbort:
+        pass
+    try:
         L.run_info_sessions(R, 70 if quick else 1500, "C04")
     except L.ImplAbort:
         pass
@@ -203,6 +212,13 @@ def _replay_once(R, payload):
     case = payload.get("case") or {}
     if not case and payload.get("disagreements"):
         case = payload["disagreements"][0].get("case") or {}
+    if str(case.get("subset", "")).startswith("large:"):
+        before0 = (len(R.violations), len(R.disagreements))
+        try:
+            L.run_large_cases(R, "C04")
+        except (L.ImplAbort, L.ImplHang):
+            return True
+        return (len(R.violations), len(R.disagreements)) != before0
     if case.get("stream") == "info-sessions" and "steps" in case:
         return L.replay_info_session(R, case, "C04")
     if "ops" not in case and "grid" in case:
